@@ -29,6 +29,7 @@ ASSUMPTIONS = [
     "a history is judged up to its first finding",
 ]
 MIN_NONTRIVIAL_FRACTION = 0.2
+RULE += " Added after the seeded rounds: 1/25 of the generated histories contain a burst of 1001..2050 spends (the audit log keeps the last 1000 transactions), each spend checked like any other."
 
 CUR = ["ATP", "GTP", "NADH"]
 
